@@ -81,10 +81,11 @@ running
     ``current_schedule()``, ``parallel_module()``
 real joblib/loky backend (conformance)
     ``RealParallel`` + ``real_backend(schedule, n_jobs, step)``: same recording, but the
-    jobs go to the real ``joblib.Parallel`` wrapped so that job i finishes at
-    ``(rank_of_i_in_schedule + 1) * step`` (60 ms steps by default) => the real
+    jobs go to the real ``joblib.Parallel`` wrapped so that job i sleeps until
+    ``T0 + (rank_of_i_in_schedule + 1) * step`` (60 ms steps by default) => the real
     backend is forced into the same completion order; ``step=0`` = free running.
-    ``forced_delays(order, workers, step)``, ``warm_real_backend(n_jobs)``,
+    ``forced_offsets(order, workers, step)``, ``warm_real_backend(n_jobs)``,
+    ``shutdown_real_backend()``,
     ``conformance_run(fn, schedule, ...)`` runs ``fn`` under both and compares.
 """
 
@@ -539,15 +540,17 @@ def installed(schedule: Schedule | None = None, n_jobs: int | None = None):
 
 
 def real_backend(schedule: Schedule | None = None, n_jobs: int | None = None,
-                 step: float = DEFAULT_STEP, batch_size=1):
+                 step: float = DEFAULT_STEP, batch_size=1, lead: float | None = None):
     """Like ``installed`` but the jobs run on the REAL joblib backend (loky), each
-    wrapped so that it finishes at ``(rank in the schedule + 1) * step`` seconds after
-    the site was opened (see ``forced_delays``), which forces the schedule's completion
-    order on the real workers.  ``step=0``: free running (no sleeps), still recorded.
+    wrapped so that it finishes ``(rank in the schedule + 1) * step`` seconds after a
+    start signal common to the site (see ``forced_offsets``), which forces the schedule's
+    completion order on the real workers.  ``step=0``: free running (no sleeps), still recorded.
     The completion order actually measured (worker-side monotonic timestamps) is put
     in ``SiteRecord.completed`` / ``.achieved``.  ``batch_size=1`` keeps joblib's
-    auto-batching from gluing jobs together (pass "auto" for joblib's default)."""
-    return _install(RealParallel, schedule, n_jobs, {"step": step, "batch_size": batch_size})
+    auto-batching from gluing jobs together (pass "auto" for joblib's default); ``lead``
+    (default: one step) is the time between opening a site and its start signal T0."""
+    return _install(RealParallel, schedule, n_jobs,
+                    {"step": step, "batch_size": batch_size, "lead": step if lead is None else lead})
 
 
 # --------------------------------------------------------------------------
@@ -695,32 +698,32 @@ class VirtualParallel:
 # the real backend with a forced completion order
 # --------------------------------------------------------------------------
 
-def forced_delays(order: Iterable[int], workers: int, step: float = DEFAULT_STEP) -> list:
-    """delay[j] (seconds between start and end of job j) such that K FIFO workers
-    complete the jobs in ``order`` with ``step`` seconds between completions: the job
-    of rank r is to finish at (r+1)*step; job j >= K starts when the (j-K+1)-th
-    completion frees a worker, i.e. at (j-K+1)*step.  Needs rank(j) >= j-K+1
-    (``min_workers_for(order) <= workers``), else ScheduleError."""
+def forced_offsets(order: Iterable[int], workers: int, step: float = DEFAULT_STEP) -> list:
+    """offset[j] (seconds after the common start signal T0) at which job j has to finish
+    so that the jobs complete in ``order`` with ``step`` seconds between completions:
+    the job of rank r finishes at T0 + (r+1)*step.  With K FIFO workers job j >= K only
+    starts when the (j-K+1)-th completion frees a worker, i.e. at T0 + (j-K+1)*step, which
+    must be before its own deadline: rank(j) >= j-K+1, i.e.
+    ``min_workers_for(order) <= workers``; otherwise ScheduleError (infeasible order).
+    Deadlines are absolute (not "sleep x after my own start"), so dispatch latencies do
+    not accumulate."""
     order = list(order)
-    n = len(order)
     if min_workers_for(order) > workers:
         raise ScheduleError(f"completion order {order} needs {min_workers_for(order)} workers, have {workers}")
     rank = {j: r for r, j in enumerate(order)}
-    out = []
-    for j in range(n):
-        start = 0 if j < workers else (j - workers + 1)
-        out.append((rank[j] + 1 - start) * step)
-    return out
+    return [(rank[j] + 1) * step for j in range(len(order))]
 
 
-def _timed_job(idx, delay, func, args, kwargs):
-    """Runs in the real worker: the job, then sleep until `delay` after its start."""
-    t0 = time.monotonic()
+def _timed_job(idx, deadline, func, args, kwargs):
+    """Runs in the real worker: the job, then sleep until the absolute deadline
+    (time.monotonic() is CLOCK_MONOTONIC, system wide on Linux; None = no sleep)."""
     res = func(*args, **kwargs)
-    rest = delay - (time.monotonic() - t0)
-    if rest > 0:
-        time.sleep(rest)
-    return idx, time.monotonic(), res  # CLOCK_MONOTONIC is system wide on Linux
+    if deadline is not None:
+        rest = deadline - time.monotonic()
+        while rest > 0:
+            time.sleep(rest)
+            rest = deadline - time.monotonic()
+    return idx, time.monotonic(), res
 
 
 def _warm_job(modules, seconds):
@@ -731,19 +734,38 @@ def _warm_job(modules, seconds):
 
 
 def warm_real_backend(n_jobs: int, modules: Iterable[str] = (PARALLEL_MODULE,),
-                      seconds: float = 0.25, rounds: int = 2) -> int:
+                      seconds: float = 0.25, rounds: int = 2, timeout: float = 60.0) -> int:
     """Start the loky workers for ``n_jobs`` and import ``modules`` in each of them, so
-    that worker start-up / first-import latencies (seconds) do not disturb the
-    engineered sleeps of the first forced run.  Returns the number of distinct workers
-    reached."""
+    that worker start-up / first-import latencies (seconds on a loaded box) do not
+    disturb the engineered sleeps of the first forced run.  Rounds of n_jobs sleeping
+    jobs are submitted until one single round was served by n_jobs distinct worker
+    processes (i.e. all of them are up and have imported the modules) and at least
+    ``rounds`` rounds were run, or ``timeout`` seconds have passed.  Returns the number of
+    distinct workers of the last round."""
     import joblib
 
-    pids = set()
     k = joblib.effective_n_jobs(n_jobs)
-    for _ in range(rounds):
-        pids.update(joblib.Parallel(n_jobs=n_jobs, batch_size=1)(
+    t_end = time.monotonic() + timeout
+    done = 0
+    while True:
+        pids = set(joblib.Parallel(n_jobs=n_jobs, batch_size=1)(
             (_warm_job, (tuple(modules), seconds), {}) for _ in range(k)))
-    return len(pids)
+        done += 1
+        if (len(pids) >= k and done >= rounds) or time.monotonic() > t_end:
+            return len(pids)
+
+
+def shutdown_real_backend():
+    """Stop the reusable loky executor (if any) and its workers.  Call it before the
+    working directory the workers were started in disappears: loky re-spawns workers
+    lazily and a new worker chdir()s to that directory."""
+    try:
+        from joblib.externals.loky import reusable_executor as _re
+    except Exception:  # noqa: BLE001
+        return
+    ex = getattr(_re, "_executor", None)
+    if ex is not None:
+        ex.shutdown(wait=True, kill_workers=True)
 
 
 class RealParallel:
@@ -768,12 +790,14 @@ class RealParallel:
         # on the real backend the *completion* order can be forced on ordered sites too
         prefix = sched.resolve(rec.seq, n, jobs, has_menu=parallel_backend and not rec.nested)
         order = choices_to_order(prefix, n)
-        if step and parallel_backend:
-            delays = forced_delays(order, joblib.effective_n_jobs(self.n_jobs), step)
+        if step and parallel_backend and n:
+            offs = forced_offsets(order, joblib.effective_n_jobs(self.n_jobs), step)
+            t0 = time.monotonic() + opts.get("lead", step)  # common start signal, after dispatch
+            deadlines = [t0 + o for o in offs]
             rec.intended = order
         else:
-            delays = [0.0] * n
-        wrapped = [(_timed_job, (i, delays[i], f, a, k), {}) for i, (f, a, k) in enumerate(jobs)]
+            deadlines = [None] * n
+        wrapped = [(_timed_job, (i, deadlines[i], f, a, k), {}) for i, (f, a, k) in enumerate(jobs)]
         kw = dict(self.kw)
         kw.setdefault("batch_size", opts.get("batch_size", 1))
         out = joblib.Parallel(n_jobs=self.n_jobs, return_as=self.return_as, **kw)(wrapped)
@@ -796,7 +820,8 @@ class RealParallel:
         rec.done = len(rec.order) == rec.n
         rec.completed = sorted(stamps, key=lambda i: (stamps[i], i))
         if rec.intended is not None:
-            rec.achieved = rec.completed == rec.intended
+            rec.achieved = rec.completed == rec.intended and (
+                rec.return_as != "generator_unordered" or rec.order == rec.intended)
 
 
 def conformance_run(fn: Callable[[], Any], schedule: Schedule, *, n_jobs: int | None = None,
@@ -812,12 +837,15 @@ def conformance_run(fn: Callable[[], Any], schedule: Schedule, *, n_jobs: int | 
     "same_sites": both runs opened the same (seq, n, return_as) sites,
     "virtual_trace"/"real_trace": [SiteRecord.to_json()], "step", "attempts"}."""
 
+    raised = []
+
     def call():
         try:
             return fn()
         except ScheduleError:
             raise
         except Exception as e:  # an implementation exception is an observation
+            raised.append(e)
             return f"raise:{type(e).__name__}:{e}"
 
     sv = schedule.clone()
@@ -828,11 +856,12 @@ def conformance_run(fn: Callable[[], Any], schedule: Schedule, *, n_jobs: int | 
     while True:
         attempts += 1
         sr = schedule.clone()
+        del raised[:]
         with real_backend(sr, n_jobs, step):
             r = call()
         forced = [x for x in sr.trace if x.intended is not None]
         achieved = all(x.achieved for x in forced)
-        if achieved or attempts > retries:
+        if achieved or attempts > retries or raised:  # an exception is not timing noise
             break
         step *= 2
     eq = (v == r) if equal is None else bool(equal(v, r))
